@@ -70,7 +70,7 @@ Definition with_log (s : vm) (l : list outev) : vm :=
   mk_vm (hp s) (st s) (g_bind s) (g_slots s) (stack s) (scap s) (sp s) (bp s) (ep s) (ip s) (acc s) l.
 
 (* ------------------------------------------------------------------ lists *)
-Fixpoint list_get {A} (l : list A) (i : N) : option A := nth_error l (N.to_nat i).
+Definition list_get {A} (l : list A) (i : N) : option A := nth_error l (N.to_nat i).
 Fixpoint list_set_nat {A} (l : list A) (i : nat) (a : A) : list A :=
   match l, i with
   | [], _ => []
